@@ -1288,3 +1288,167 @@ Proof.
   destruct (mon_run_back_pressure obs p (mon_init p) i o x H Hn Hr) as (j & A & _ & B).
   exists j. split; auto.
 Qed.
+
+(* ------------------------------------ 5. into_yielded and into_complete *)
+Lemma poll_finished_gen : forall p st,
+  Binv p st -> t_done (g_task st) = true -> poll_next st = (st, RStreamEnd).
+Proof.
+  intros p [[pc rest sb sent sw dn] m ret res sterm] HB Hd. simpl in Hd; subst dn.
+  destruct (b_done _ _ HB eq_refl) as (_ & Ho & _).
+  pose proof (b_res _ _ HB) as Hr. pose proof (b_sterm _ _ HB) as Hs.
+  cbn [g_task g_m g_ret g_res g_sterm] in *. subst res. rewrite Ho in Hs. simpl in Hs. subst sterm.
+  reflexivity.
+Qed.
+
+Lemma run_mode_raw_full : forall s fuel st, run_mode_full MRaw fuel st s = run_full st s.
+Proof.
+  induction s as [|[|k] s IH]; intros fuel st; [reflexivity| |apply IH].
+  cbn [run_mode_full run_full poll_mode].
+  destruct (poll_next (with_m (fun m => set_log [] (set_woken false m)) st)) as [st1 r].
+  rewrite IH. reflexivity.
+Qed.
+
+Theorem run_mode_raw : forall p s, run_mode MRaw p s = run p s.
+Proof. intros. unfold run_mode, run, run_from. rewrite run_mode_raw_full. reflexivity. Qed.
+
+Lemma rmf_poll : forall md fuel st s,
+  run_mode_full md fuel st (Poll :: s) =
+  let '(st1, r) := poll_mode md fuel (pre_poll st) in
+  (Ob (m_woken (g_m st)) r (m_woken (g_m st1)) (m_log (g_m st1)) (m_wait_reg (g_m st1)) (term_mode md st1), st1)
+  :: run_mode_full md fuel (post_poll st1) s.
+Proof. reflexivity. Qed.
+
+Lemma rmf_complete : forall md fuel st k s,
+  run_mode_full md fuel st (Complete k :: s) = run_mode_full md fuel (with_m (complete_m k) st) s.
+Proof. reflexivity. Qed.
+
+(* ---- into_yielded: the yielded values, in order, then None for ever ---- *)
+Definition yielded_shape (pend : list N) (rs : list poll_result) : Prop :=
+  exists pre n, rs = pre ++ repeat RStreamEnd n /\ Forall running_result pre /\
+    (exists later, pend = yvals pre ++ later) /\ (n <> 0%nat -> yvals pre = pend).
+
+Lemma wy_finished : forall s p st fuel,
+  Binv p st -> t_done (g_task st) = true ->
+  exists n, results (map fst (run_mode_full MYielded fuel st s)) = repeat RStreamEnd n.
+Proof.
+  unfold results.
+  induction s as [|[|k] s IH]; intros p st fuel HB Hd.
+  - exists 0%nat. reflexivity.
+  - rewrite rmf_poll. cbn [poll_mode]. unfold poll_into_yielded.
+    rewrite (poll_finished_gen p (pre_poll st) (Binv_pre_poll _ _ HB) Hd).
+    destruct (IH p (post_poll (pre_poll st)) fuel) as (n & Hn).
+    + apply Binv_post_poll, Binv_pre_poll, HB.
+    + exact Hd.
+    + exists (S n). cbn [map fst o_res repeat]. rewrite Hn. reflexivity.
+  - rewrite rmf_complete. apply (IH p); [apply Binv_complete, HB|exact Hd].
+Qed.
+
+Lemma wy_running : forall s p st fuel,
+  Binv p st -> t_done (g_task st) = false ->
+  yielded_shape (map fst (pendS st)) (results (map fst (run_mode_full MYielded fuel st s))).
+Proof.
+  unfold results.
+  induction s as [|[|k] s IH]; intros p st fuel HB Hd.
+  - exists [], 0%nat. repeat split; auto; [|congruence]. exists (map fst (pendS st)). reflexivity.
+  - rewrite rmf_poll. cbn [poll_mode]. unfold poll_into_yielded.
+    destruct (poll_next (pre_poll st)) as [st1 r] eqn:Hp.
+    destruct (poll_running _ _ _ _ HB Hd Hp) as (HB1 & _ & _ & _ & _ & Out).
+    destruct r as [|x|v|]; cbn [poll_out] in Out.
+    + destruct Out as (Hd1 & Hpend & _). cbn [map fst o_res].
+      destruct (IH p (post_poll st1) fuel (Binv_post_poll _ _ HB1) Hd1) as (pre & n & E & Fp & Hl & Hn).
+      rewrite pendS_post_poll, Hpend in Hl, Hn.
+      exists (RPendingP :: pre), n. rewrite E. repeat split; auto. constructor; simpl; auto.
+    + destruct Out as (Hd1 & Hpend & _). cbn [map fst o_res].
+      destruct (IH p (post_poll st1) fuel (Binv_post_poll _ _ HB1) Hd1) as (pre & n & E & Fp & (later & Hl) & Hn).
+      rewrite pendS_post_poll in Hl, Hn. rewrite Hpend. cbn [map fst].
+      exists (RYielded x :: pre), n. rewrite E. change (yvals (RYielded x :: pre)) with (x :: yvals pre).
+      repeat split; auto.
+      * constructor; simpl; auto.
+      * exists later. rewrite Hl. reflexivity.
+      * intros Hz. rewrite (Hn Hz). reflexivity.
+    + destruct Out as (_ & Hd1 & Hpend).
+      rewrite (poll_finished_gen p st1 HB1 Hd1). cbn [map fst o_res].
+      destruct (wy_finished s p (post_poll st1) fuel (Binv_post_poll _ _ HB1) Hd1) as (n & Hn).
+      unfold results in Hn. rewrite Hn, Hpend.
+      exists [], (S n). repeat split; auto. exists []. reflexivity.
+    + destruct Out.
+  - rewrite rmf_complete.
+    specialize (IH p (with_m (complete_m k) st) fuel (Binv_complete _ _ k HB) Hd).
+    rewrite pendS_complete in IH. exact IH.
+Qed.
+
+Theorem into_yielded_order : forall p s,
+  yielded_shape (emits (p_ops p)) (results (run_mode MYielded p s)).
+Proof.
+  intros p s. rewrite <- pendS_init. unfold run_mode. apply (wy_running s p (init p)); [apply Binv_init|reflexivity].
+Qed.
+
+(* ---- into_complete: Pending until it returns the closure's result; unwrap never sees None ---- *)
+Lemma pic_spec : forall p fuel st st1 c,
+  Binv p st -> t_done (g_task st) = false -> (length (pendS st) <= fuel)%nat ->
+  poll_into_complete fuel st = (st1, c) ->
+  Binv p st1 /\
+  ((c = CPending /\ t_done (g_task st1) = false /\ (length (pendS st1) <= length (pendS st))%nat) \/
+   (c = CReady (p_ret p) /\ t_done (g_task st1) = true)).
+Proof.
+  intros p. induction fuel as [|fuel IH]; intros st st1 c HB Hd Hf Hp; cbn [poll_into_complete] in Hp;
+    destruct (poll_next st) as [st' r] eqn:Hn;
+    destruct (poll_running_gen _ _ _ _ HB Hd Hn) as (HB' & _ & _ & _ & _ & Out);
+    destruct r as [|x|v|]; cbn [poll_out] in Out.
+  - injection Hp as <- <-. destruct Out as (Hd' & Hpend & _). split; auto. left. rewrite Hpend. auto.
+  - destruct Out as (_ & Hpend & _). rewrite Hpend in Hf. simpl in Hf. lia.
+  - injection Hp as <- <-. destruct Out as (-> & Hd' & _). split; auto.
+  - destruct Out.
+  - injection Hp as <- <-. destruct Out as (Hd' & Hpend & _). split; auto. left. rewrite Hpend. auto.
+  - destruct Out as (Hd' & Hpend & _). rewrite Hpend in Hf. simpl in Hf.
+    destruct (IH st' st1 c HB' Hd' ltac:(lia) Hp) as (A & [(B1 & B2 & B3)|B]).
+    + split; auto. left. repeat split; auto. rewrite Hpend. simpl. lia.
+    + split; auto.
+  - injection Hp as <- <-. destruct Out as (-> & Hd' & _). split; auto.
+  - destruct Out.
+Qed.
+
+Definition complete_shape (ret : N) (rs : list poll_result) : Prop :=
+  exists n, rs = repeat RPendingP n \/ exists rest, rs = repeat RPendingP n ++ RComplete ret :: rest.
+
+Lemma length_pendS_pre_poll : forall st, pendS (pre_poll st) = pendS st.
+Proof. intros. unfold pre_poll. apply pendS_with_m. intros []; reflexivity. Qed.
+
+Lemma wc_running : forall s p st fuel,
+  Binv p st -> t_done (g_task st) = false -> (length (pendS st) <= fuel)%nat ->
+  complete_shape (p_ret p) (results (map fst (run_mode_full MComplete fuel st s))).
+Proof.
+  unfold results.
+  induction s as [|[|k] s IH]; intros p st fuel HB Hd Hf.
+  - exists 0%nat. left. reflexivity.
+  - rewrite rmf_poll. cbn [poll_mode].
+    destruct (poll_into_complete fuel (pre_poll st)) as [st1 c] eqn:Hp.
+    assert (Hf' : (length (pendS (pre_poll st)) <= fuel)%nat) by (rewrite length_pendS_pre_poll; exact Hf).
+    destruct (pic_spec p fuel (pre_poll st) st1 c (Binv_pre_poll _ _ HB) Hd Hf' Hp) as (HB1 & [(-> & Hd1 & Hl)|(-> & Hd1)]).
+    + rewrite length_pendS_pre_poll in Hl. cbn [map fst o_res cpoll_result].
+      destruct (IH p (post_poll st1) fuel (Binv_post_poll _ _ HB1) Hd1) as (n & [E|(rest & E)]).
+      * rewrite pendS_post_poll. lia.
+      * exists (S n). left. rewrite E. reflexivity.
+      * exists (S n). right. exists rest. rewrite E. reflexivity.
+    + cbn [map fst o_res cpoll_result]. exists 0%nat. right. eexists. reflexivity.
+  - rewrite rmf_complete. apply (IH p); [apply Binv_complete, HB|exact Hd|rewrite pendS_complete; exact Hf].
+Qed.
+
+Theorem into_complete_result : forall p s,
+  complete_shape (p_ret p) (results (run_mode MComplete p s)).
+Proof.
+  intros p s. unfold run_mode. apply (wc_running s p (init p)); [apply Binv_init|reflexivity|].
+  rewrite <- (map_length fst), pendS_init. lia.
+Qed.
+
+(* ---- the bound in terms of program size ---- *)
+Lemma wake_sources_le : forall ops, (wake_sources ops <= length ops + item_count ops)%nat.
+Proof. induction ops as [|[] ops IH]; simpl; lia. Qed.
+
+Theorem liveness_bound_size : forall p s,
+  disciplined true (run p s) = true ->
+  (length (run p s) <= length (p_ops p) + item_count (p_ops p) + 3)%nat.
+Proof.
+  intros p s H. pose proof (liveness_bound p s H). pose proof (wake_sources_le (p_ops p)).
+  unfold wake_budget in *. lia.
+Qed.
